@@ -41,7 +41,7 @@ REAL_STUB = c02.REAL_STUB
 
 def budget(tier):
     if tier == "quick":
-        return {"wall_s": 35.0, "max_cases": 10**9, "case_timeout": 40.0}
+        return {"wall_s": 35.0, "max_cases": 10**9, "case_timeout": 90.0}
     return {"wall_s": 420.0, "max_cases": 10**9, "case_timeout": 120.0}
 
 
